@@ -18,7 +18,7 @@ func init() {
 		Title:       "A failing writer or a cancelled merge never yields silent success",
 		Technique:   "static analysis: path-sensitive error-flow walk over go/cfg (every error-returning call of the persist path accounted for on all paths) + SSA dominance (checked Flush, ErrClosed on cancellation)",
 		Level:       "Static rules sound for the named clauses: for every byte offset at which the destination can fail, the error reaches the WriteTo result (all paths of all functions of the persist path are enumerated, not sampled); every cancellation poll returns ErrClosed. Not a verdict on the correctness of a completed file.",
-		Explanation: "Static, path-quantified error discipline of the persist path. ERR-FLOW (go/cfg + go/types abstract walk) shows that in every function reachable from Segment.WriteTo, Merger.WriteTo and the builder's section writers every error-returning call is accounted for on every control-flow path, so a non-nil error from a write at ANY byte offset propagates to the WriteTo result; FLUSH-CHECKED (SSA dominance) shows every possibly-successful return of the two WriteTo methods is dominated by a checked bufio Flush; CLOSED-RETURNS-ERR shows every isClosed poll returns a non-nil error on its true edge; WRITE-CHANNEL enumerates the write sites. Decides clause 1 for every failure offset under the bufio sticky-error assumption; for clause 2 it decides that the only outcomes are ErrClosed or the normal completion path.",
+		Explanation: "DATA-COPY-COMPLETE shows that Segment.WriteTo reports success only where the number of bytes copied out of the segment data (an io.Copy over the file for file-backed data, which ends silently on an early io.EOF) equals the length of the data: success is never reported for a truncated image. Static, path-quantified error discipline of the persist path. ERR-FLOW (go/cfg + go/types abstract walk) shows that in every function reachable from Segment.WriteTo, Merger.WriteTo and the builder's section writers every error-returning call is accounted for on every control-flow path, so a non-nil error from a write at ANY byte offset propagates to the WriteTo result; FLUSH-CHECKED (SSA dominance) shows every possibly-successful return of the two WriteTo methods is dominated by a checked bufio Flush; CLOSED-RETURNS-ERR shows every isClosed poll returns a non-nil error on its true edge; WRITE-CHANNEL enumerates the write sites. Decides clause 1 for every failure offset under the bufio sticky-error assumption; for clause 2 it decides that the only outcomes are ErrClosed or the normal completion path.",
 		NotCovered:  "that a completed file is correct (C02/C04); destination writers that violate io.Writer (short write with nil error)",
 		Uses:        []RuleUse{{"DATA-COPY-COMPLETE", ""}, {"ERR-FLOW", "PERSIST"}, {"FLUSH-CHECKED", ""}, {"CLOSED-RETURNS-ERR", ""}, {"WRITE-CHANNEL", ""}},
 	})
